@@ -717,7 +717,17 @@ func (s *Sim) onPublish(p *PubRecord) {
 			for k, v := range asMap(pl["accountMetadata"]) {
 				am[k] = metaFromAny(v)
 			}
-			if !acctMetaEqual(am, e.AcctMeta) {
+			if len(txs) > 1 {
+				// an event that announces several transactions carries the account metadata of all
+				// of them: each entry's must be in it
+				for acct, md := range e.AcctMeta {
+					for k, v := range md {
+						if am[acct][k] != v {
+							s.violate("C16", "event-differs-from-entry", fmt.Sprintf("%s: COMMITTED_TRANSACTIONS for transaction %s lacks account metadata %s.%s=%q of entry %d", name, tx.ID, acct, k, v, e.Idx), "type=COMMITTED_TRANSACTIONS", "field=accountMetadata")
+						}
+					}
+				}
+			} else if !acctMetaEqual(am, e.AcctMeta) {
 				s.violate("C16", "event-differs-from-entry", fmt.Sprintf("%s: COMMITTED_TRANSACTIONS for transaction %s carries account metadata %v, entry %d has %v", name, tx.ID, am, e.Idx, e.AcctMeta), "type=COMMITTED_TRANSACTIONS", "field=accountMetadata")
 			}
 		}
